@@ -23,6 +23,7 @@ RULE = ("Hypothesis-generated CML documents of the Avogadro flavour (no XML name
         "the parsed coordinates and stated element, one bond per entry joining index(ref1), index(ref2), zero bonds "
         "when there are none, all five loads equal. Non-trivial = ids not in sequential order, or no bonds, or a "
         "single atom; distinct by hash of the document.")
+RULE += (" Since rounds 9-10: Each document is also loaded from a file opened 'rb', io.BytesIO, io.StringIO, and twice more from one open handle after seek(0).")
 ASSUMPTIONS = ["namespaced CML documents are outside the observed domain (findall('.//atom') is namespace-sensitive and no "
                "repository file uses a namespace) and are not generated"]
 
